@@ -53,10 +53,14 @@ def kinds_for(table, name, nargs, args):
 
 def stmt_for(what, name, args, wrap):
     table = FUNSIG if what == "fun" else SUBSIG
-    ps = kinds_for(table, name, len(args), args)
-    if ps is None:
-        return None
-    t = [KINDTEXT[k][a] for a, k in zip(args, ps)]
+    if args and all(":" in a for a in args):
+        # a mis-kinded call: every argument names its own kind
+        t = [KINDTEXT[a.split(":")[0]][a.split(":")[1]] for a in args]
+    else:
+        ps = kinds_for(table, name, len(args), args)
+        if ps is None:
+            return None
+        t = [KINDTEXT[k][a] for a, k in zip(args, ps)]
     if what == "fun":
         call = name + ("(" + ", ".join(t) + ")" if t else "")
         is_str = name.endswith("$")
@@ -110,6 +114,72 @@ STDINS = ["", "1\r\n", "abc\r\n", ",,\r\n", "x" * 400 + "\r\n", [200, 201, 13, 1
 FILES = {"IN.TXT": "12,abc\r\nline two\r\n"}
 
 
+DEVICE_STMTS = ['LPRINT "x"', 'LPRINT 1; 2,', "LPRINT", 'LPRINT USING "##"; 1', "CLS", "LOCATE 1, 1", "LOCATE 30, 90", "COLOR 1, 2", "COLOR 99",
+                "WIDTH 80, 25", "WIDTH 1, 1", "VIEW PRINT 1 TO 10", "VIEW PRINT", "BEEP", "PRINT INKEY$", "INPUT A", 'INPUT "p"; A$, B',
+                "LINE INPUT A$", 'PRINT ENVIRON$("PATH")', 'ENVIRON "A=B"', "DEF SEG = 0: POKE 1047, 0: PRINT PEEK(1047)", "DEF SEG",
+                'PRINT TAB(5); 1', "PRINT SPC(3); 1", 'OPEN "LPT1:" FOR OUTPUT AS #1: PRINT #1, "x"', 'OPEN "X.TXT" FOR OUTPUT AS #1: PRINT #1, 1: CLOSE',
+                'OPEN "NOPE.TXT" FOR INPUT AS #1', "PRINT VARPTR(A)", "PRINT 1 / 0", "PRINT CHR$(7); CHR$(0); CHR$(255)", 'PRINT STRING$(3000, "x")',
+                "WHILE INKEY$ = \"\": N = N + 1: IF N > 50 THEN END\r\nWEND", "KILL \"NOPE\"", 'NAME "A" AS "B"']
+
+
+def shipped_binary_pass(rep, d, tier, rng):
+    """The same question asked of the shipped command-line program (the default interpreter with the real console,
+    printer and screen devices behind it, which the serve harness replaces by buffers): it must end every accepted
+    program without a panic."""
+    import subprocess, concurrent.futures
+    from common import HARNESS
+    exe = os.path.join(HARNESS, "target", "debug", "rusty_basic_shipped")
+    if not os.path.exists(exe):
+        raise ToolError("the shipped binary was not built: " + exe)
+    import tour
+    progs = [("device:%d" % i, t.replace("\\r\\n", "\r\n") + "\r\n") for i, t in enumerate(DEVICE_STMTS)]
+    progs += [("device-handled:%d" % i, "ON ERROR GOTO H\r\n" + t + '\r\nPRINT "after"\r\nEND\r\nH:\r\nPRINT "E"; ERR\r\nRESUME NEXT\r\n')
+              for i, t in enumerate(DEVICE_STMTS)]
+    progs += [("tour:%d" % i, t) for i, t in enumerate(tour.TOUR + tour.ODD)]
+    cp = [("corpus:" + c["src"], c["text"]) for c in corpus.programs()]
+    rng.shuffle(cp)
+    progs += cp[: (len(cp) if tier == "thorough" else 150)]
+    root = os.path.join(d, "binfs")
+    shutil.rmtree(root, ignore_errors=True)
+
+    def one(i):
+        fam, text = progs[i]
+        wd = os.path.join(root, "b%d" % i)
+        os.makedirs(wd, exist_ok=True)
+        with open(os.path.join(wd, "IN.TXT"), "w") as f:
+            f.write(FILES["IN.TXT"])
+        with open(os.path.join(wd, "P.BAS"), "w", newline="") as f:
+            f.write(text)
+        env = {k: v for k, v in os.environ.items() if k not in ("SERVER_NAME", "PATH_TRANSLATED")}
+        env["RUST_BACKTRACE"] = "0"
+        try:
+            p = subprocess.run([exe, "P.BAS"], cwd=wd, input=b"1\r\nabc, 2\r\n", stdout=subprocess.PIPE, stderr=subprocess.PIPE, timeout=8, env=env)
+            return p.returncode, p.stderr.decode("utf-8", "replace")[-600:]
+        except subprocess.TimeoutExpired:
+            return None, "timeout"
+
+    with concurrent.futures.ThreadPoolExecutor(8) as ex:
+        results = list(ex.map(one, range(len(progs))))
+    shutil.rmtree(root, ignore_errors=True)
+    stats = {"programs": len(progs), "ended": 0, "run_time_error": 0, "rejected": 0, "cut_by_wall_clock": 0, "panic": 0}
+    for (fam, text), (rc, err) in zip(progs, results):
+        if rc is None:
+            stats["cut_by_wall_clock"] += 1       # no instruction budget in the shipped program: a loop is not judged
+        elif rc == 101 or "panicked at" in err or rc < 0:
+            stats["panic"] += 1
+            loc = err.split("panicked at ", 1)[1].split(":\n")[0].split("\n")[0] if "panicked at " in err else "signal"
+            rep.violation({"case": fam, "rendered_text": text, "stdin": "1\r\nabc, 2\r\n", "observed": {"exit": rc, "stderr": err},
+                           "expected": "the shipped program ends every accepted program normally or with 'Runtime error.' - never a panic"},
+                          {"fam:shipped", "panic", "panic_at:" + loc.replace("/repo/", "").split(":")[0]}, name="shipped")
+        elif "Runtime error" in err:
+            stats["run_time_error"] += 1
+        elif "Could not" in err:
+            stats["rejected"] += 1
+        else:
+            stats["ended"] += 1
+    return stats
+
+
 def run(tier, replay):
     rep = Reporter("C08", tier, "exploration")
     pool = Pool()
@@ -129,7 +199,8 @@ def run(tier, replay):
     else:
         if tier == "quick":
             rng.shuffle(cases)
-            cases = cases[:9000]
+            mis = [c for c in cases if ":" in c[2]]
+            cases = mis + [c for c in cases if ":" not in c[2]][:9000]
         texts = []
         unrendered = 0
         for what, name, argstr, wrap, place in cases:
@@ -150,6 +221,8 @@ def run(tier, replay):
         trans += t3
         for (tn, fa, fb) in slots.stratified(sl, rng, 250000 if tier == "thorough" else 6000):
             texts.append(("slot:" + tn, slots.program(tn, fa, fb), "7\r\nabc, 2\r\n"))
+            if "input" in tn and fa in slots.NATURAL.get(tn, (fa, fb)):
+                texts.append(("slot:" + tn, slots.program(tn, fa, fb), "ab\u00e9\u20acd, x\r\n\u00e9\u00e9\u00e9\u00e9\r\n"))
         # 2. accepted programs of the other families and of the repository, on several inputs
         import c01, c03, c04, c05
         extra = []
@@ -205,7 +278,9 @@ def run(tier, replay):
                        "panic": (resp or {}).get("panic"), "outcome": (resp or {}).get("outcome"),
                        "expected": "Outcome.tla: ok, a BASIC run-time error with a known code and a position inside the text, or budget"},
                       feats, name=(resp or {}).get("stage") or "lost")
+    shipped = shipped_binary_pass(rep, d, tier, rng) if not replay else {}
     coverage = {
+        "shipped_binary": shipped,
         "evaluations": len(texts), "distinct_nontrivial": len({(m[1], str(m[2])) for m in meta.values()}),
         "rule": "TLC enumerates every built-in function / statement x argument class tuple x wrapper x position (%d states; sampled "
                 "in quick); each accepted program runs on console inputs (empty, a number, text, commas, a long line, non-UTF-8 bytes); "
